@@ -4,6 +4,7 @@ import (
 	"bufio"
 	"bytes"
 	"context"
+	"encoding/json"
 	"errors"
 	"fmt"
 	"io"
@@ -35,7 +36,7 @@ type hline struct{ name, val string }
 
 // flight is the request between O's transport and D's handler.
 type flight struct {
-	chunked bool // the body travels without a declared length (chunked transfer coding)
+	chunked   bool          // the body travels without a declared length (chunked transfer coding)
 	orig      *http.Request // as handed to the RoundTripper (body consumed)
 	origURI   string
 	method    string
@@ -579,6 +580,19 @@ func (f *flight) applyFault(e *env) bool {
 			m := sim.Pick(t, alts)
 			if m == f.method {
 				m = "PATCH"
+			}
+			if !f.bodyTouch && f.hasContent() && t.Chance(300) {
+				// ... and the signed method and request-target smuggled in behind
+				// the body, as members of whatever object the receiver builds
+				// around it: the body is no longer one JSON value, and what was
+				// signed is still not what is being asked
+				signedMethod, _ := json.Marshal(f.method)
+				signedURI, _ := json.Marshal(f.origURI)
+				f.body = append(append([]byte{}, f.body...), []byte(`,"method":`+string(signedMethod)+`,"uri":`+string(signedURI))...)
+				f.bodyTouch = true
+				f.method = m
+				f.add(mark{class: fault, kind: "method_with_signed_values_behind_the_body", oracle: "refuse_tamper", codes: []int{400, 401}})
+				return true
 			}
 			f.method = m
 			f.add(mark{class: fault, kind: "method", oracle: "refuse_tamper", codes: []int{401}})
